@@ -52,7 +52,13 @@ NOT_CARRIED = [
     "(2j+1)/(2 npointsz) v, strictly inside the parallelogram (C05_nusselt_grid_rectangle: ordered field + FloorLaws); "
     "the assembly with both branches computed holds exact zeros for unlisted pairs, the Nusselt value exactly on "
     "touching listed pairs, and keeps the zero / area-ratio reciprocity statements of the i<j rule "
-    "(C05_full_assembly_entries, C05_full_assembly).  NOT proved for the Nusselt branch: every accuracy statement "
+    "(C05_full_assembly_entries, C05_full_assembly); and the composed end-to-end model (Model/Full.v) no longer takes "
+    "any form-factor value as an input: for every room description the matrix of the scene it builds IS "
+    "patch2patch_ff_full of the room's own tiling, normals, areas and visible-pair list, visible touching pairs hold "
+    "the model's Nusselt value and the others the Stokes value, invisible pairs are exactly zero and the lower "
+    "triangle follows by the area ratio (C05_room_form_factors_computed, C05_room_geometry_is_tiling; executed "
+    "against from_polygon ... bake_geometry by the end-to-end family of C03, harness/fullroom.py, at rel 1e-9).  "
+    "NOT proved for the Nusselt branch: every accuracy statement "
     "(that the value approximates the form-factor integral: the quadratic-arc area and the regular-grid quadrature "
     "are not analysed), 0 <= F <= 1, area_i*F_ij = area_j*F_ji of the two-sided kernel (it is not symmetric by "
     "construction: one patch is sampled, the other projected; measured as *kernel_two_sided*), rotation invariance "
